@@ -276,15 +276,20 @@ def d4(ctx, F):
         ctx.check(ok, "C15.D4.roles", "gen:keypair:%s" % fn, "KeyPair::%s builds a %s certificate signed by its ca parameter" % (fn, role), b.span)
     gen = F.body(P + "cert_gen::CertGen::generate")
     ctx.touch(gen)
-    cac = gen.calls_to(P + "cert_gen::generate_ca_cert")
-    cl = gen.calls_to(P + "key_pair::KeyPair::client")
-    sv = gen.calls_to(P + "key_pair::KeyPair::server")
+    # helpers that build the CA are looked through; the KeyPair constructors stay calls
+    CB = P + "certificate_builder::CertificateBuilder::"
+    keepfns = [P + "key_pair::KeyPair::client", P + "key_pair::KeyPair::server"] + [p_ for p_ in F.bodies if p_.startswith(CB)]
+    gi = F.inlined(gen, keep=keepfns)
+    cac = gi.calls_to(CB + "ca")
+    cl = gi.calls_to(P + "key_pair::KeyPair::client")
+    sv = gi.calls_to(P + "key_pair::KeyPair::server")
     ok = len(cac) == 1 and len(cl) == 1 and len(sv) == 1
     if ok:
-        cav = flow.derived(gen, {cac[0].dest["l"]}, calls="adapters")
+        builder_calls = {strip_generics(c.callee) for c in gi.calls() if strip_generics(c.callee).startswith(CB)}
+        cav = flow.derived(gi, {cac[0].dest["l"]}, calls=builder_calls | {"core::ops::try_trait::Try::branch"})
         ok = op_local(cl[0].args[0]) in cav and op_local(sv[0].args[0]) in cav
-        der = [c for c in gen.calls() if c.name() == "serialize_der" and op_local(c.args[0]) in cav]
-        ok = ok and len(der) == 1
+        der = [c for c in gi.calls() if c.name() == "serialize_der" and op_local(c.args[0]) in cav]
+        ok = ok and len(der) == 1 and len([c for c in gi.calls() if c.name() == "serialize_der"]) == 1
     ctx.check(ok, "C15.D4.same-ca", "gen:different-cas", "client and server certificates are signed by the one generated CA, whose DER is what gets published", gen.span)
     out = F.body(P + "cert_gen::CertGen::output")
     wf = F.body(P + "cert_gen::CertGen::write_to_filesystem")
